@@ -40,7 +40,7 @@ def run_case(reg, target, case):
     """-> list of failures (clause, observed)"""
     con = reg.contracts[target]
     args = case["args"]
-    ev = Evaluator(reg, extra=case.get("extra"))
+    ev = Evaluator(reg, extra=case.get("extra"), exact=bool(con.get("options", {}).get("exact_floats")))
     params = list(args)
     fails = []
     # preconditions: a case that does not satisfy them is not a test of the function
